@@ -1420,6 +1420,14 @@ func (a *Analysis) WriteThrough(f *ssa.Function, site ssa.CallInstruction, j int
 	a.Writes = append(a.Writes, WriteSite{Instr: site, Ptr: an, Kind: "extwrite", Fn: f})
 }
 
+// ExternalWrite records that an external callee mutates the object argument j
+// points to (e.g. sync.Map.Store on its receiver).
+func (a *Analysis) ExternalWrite(site ssa.CallInstruction, j int, kind string) {
+	if an, ok := a.ArgNode(site, j); ok {
+		a.Writes = append(a.Writes, WriteSite{Instr: site, Ptr: an, Kind: kind, Fn: site.Parent()})
+	}
+}
+
 // ---- queries -----------------------------------------------------------------
 
 // PointsTo returns the locations a pointer-like SSA value may hold.
